@@ -708,6 +708,20 @@ class Array(DaskMethodsMixin):
         # Use SetItem expression for other index types
         from dask_array.slicing import SetItem
 
+        # The assignment is recorded lazily, so keep the key as it is now: a
+        # later in-place change to a key the caller still holds (a dask array
+        # assigned to, an ndarray or list edited) must not move this assignment.
+        def snapshot(k):
+            if isinstance(k, Array):
+                return new_collection(k.expr)
+            if isinstance(k, np.ndarray):
+                return k.copy()
+            if isinstance(k, list):
+                return list(k)
+            return k
+
+        key = tuple(snapshot(k) for k in key) if isinstance(key, tuple) else snapshot(key)
+
         value_expr = value.expr if isinstance(value, Array) else value
         y = new_collection(SetItem(self.expr, key, value_expr))
         self._replace_expr(y.expr)
